@@ -376,10 +376,14 @@ def items_between(block_sl, after_re, before_re, name=None, allow_loop_break=Fal
     if len(ia) != 1 or len(ib) != 1 or ib[0] <= ia[0]:
         raise Undecided("items_between(%s): expected one item matching %r followed by one matching %r, found %d/%d" % (block_sl.name, after_re, before_re, len(ia), len(ib)))
     frag = "".join(("\n" + txt(it) + "\n") if it[0] == 'pp' else txt(it) for it in items[ia[0] + 1:ib[0]])
-    # break/continue are harmless when every item of the fragment is itself a loop statement (they cannot leave the fragment)
-    only_loops = allow_loop_break and all(it[0] == 'compound' and re.match(r'\s*(for|while)\b', strip_comments(it[1]).strip()) for it in items[ia[0] + 1:ib[0]])
-    if re.search(r'\b(return|goto)\b' if only_loops else r'\b(return|goto|break|continue)\b', strip_comments(frag)):
-        raise Undecided("items_between(%s): the fragment contains return/goto/break/continue" % block_sl.name)
+    # break/continue are harmless inside the fragment's own loop statements (they cannot leave the fragment); anywhere else they would
+    sel = items[ia[0] + 1:ib[0]]
+    def is_loop(it):
+        return it[0] == 'compound' and re.match(r'\s*(for|while)\b', strip_comments(it[1]).strip())
+    for it in sel:
+        bad_re = r'\b(return|goto)\b' if (allow_loop_break and is_loop(it)) else r'\b(return|goto|break|continue)\b'
+        if it[0] != 'pp' and re.search(bad_re, strip_comments(txt(it))):
+            raise Undecided("items_between(%s): the fragment contains return/goto/break/continue" % block_sl.name)
     s = Slice(name or block_sl.name + ":between", block_sl.rel, frag, block_sl.line, kind="middle-fragment")
     s.n_items = ib[0] - ia[0] - 1
     return s
